@@ -295,3 +295,33 @@ package bitmap
 //@   requires tbInv(tb) && 0 <= idx && idx < tbEnd(tb)
 //@   ensures r == tbBit(tb, idx)
 //@   assigns nothing
+
+// ---- C02 / C19: select ----
+
+//@ func IndexSelect32 returns (sidx)
+//@   requires len(words) < 1<<25
+//@   ensures fresh(sidx)
+//@   assigns nothing
+//@   loop 1
+//@     invariant fresh(sidx) && 0 <= i && i <= l && l == len(words) << 6
+
+//@ func IndexSelect32R64 returns (sidx, ridx)
+//@   requires len(words) < 1<<25
+//@   ensures fresh(sidx) && fresh(ridx)
+//@   assigns nothing
+//@   loop 1
+//@     invariant fresh(sidx) && 0 <= i && i <= l && l == len(words) << 6
+
+//@ func Select32 returns (a, b)
+//@   assigns nothing
+//@   loop 1
+//@     invariant true
+//@   loop 2
+//@     invariant true
+
+//@ func Select32R64 returns (a, b)
+//@   assigns nothing
+//@   loop 1
+//@     invariant true
+//@   loop 2
+//@     invariant true
